@@ -128,7 +128,7 @@ pub trait ByArc: HasSnap + Sized {
 #[unimock(api = ByPinMock)]
 pub trait ByPin: HasSnap {
     fn pin_req(self: Pin<&mut Self>, x: u8) -> u64;
-    fn pin_prov(mut self: Pin<&mut Self>, x: u8) -> u64 {
+    fn pin_prov(mut self: core::pin::Pin<&mut Self>, x: u8) -> u64 {
         run_prog(ProgKind::DefaultBody(M::PinProv), x, 0, &mut |req| match req {
             PortReq::Snap => PortResp::Snap(self.snap()),
             PortReq::Call(M::PinReq, x, _) => PortResp::Val(self.as_mut().pin_req(x)),
@@ -156,7 +156,7 @@ pub trait ByVal2: HasSnap + Sized {
 #[unimock(api = ByRc2Mock)]
 pub trait ByRc2: HasSnap + Sized {
     fn rc2_req(self: Rc<Self>, x: u8) -> u64;
-    fn rc2_prov(self: Rc<Self>, x: u8) -> u64 {
+    fn rc2_prov(self: std::rc::Rc<Self>, x: u8) -> u64 {
         run_prog(ProgKind::DefaultBody(M::Rc2Prov), x, 0, &mut |req| match req {
             PortReq::Snap => PortResp::Snap(self.snap()),
             PortReq::Call(M::Rc2Req, x, _) => PortResp::Val(self.clone().rc2_req(x)),
@@ -168,7 +168,7 @@ pub trait ByRc2: HasSnap + Sized {
 #[unimock(api = ByArc2Mock)]
 pub trait ByArc2: HasSnap + Sized {
     fn arc2_req(self: Arc<Self>, x: u8) -> u64;
-    fn arc2_prov(self: Arc<Self>, x: u8) -> u64 {
+    fn arc2_prov(self: std::sync::Arc<Self>, x: u8) -> u64 {
         run_prog(ProgKind::DefaultBody(M::Arc2Prov), x, 0, &mut |req| match req {
             PortReq::Snap => PortResp::Snap(self.snap()),
             PortReq::Call(M::Arc2Req, x, _) => PortResp::Val(self.clone().arc2_req(x)),
@@ -366,7 +366,7 @@ pub fn real_own_single(_u: &Unimock, _x: u8) -> Tracked {
     Tracked::new(&tl_tracker(), 3_000_000 + tl_val_id() % 1_000_000)
 }
 
-#[unimock(api = OwnMock, unmock_with = [real_own_single, _, _, _, _, _, _, _, _, _])]
+#[unimock(api = OwnMock, unmock_with = [real_own_single, _, _, _, _, _, _, _, _, _, _])]
 pub trait Own {
     fn own_single(&self, x: u8) -> Tracked;
     fn own_multi(&self, x: u8) -> TrackedC;
@@ -378,6 +378,7 @@ pub trait Own {
     fn own_tup3(&self, x: u8) -> (&u32, Tracked, Tracked);
     fn own_deep_opt(&self, x: u8) -> Option<Result<&u32, Tracked>>;
     fn own_deep_poll(&self, x: u8) -> std::task::Poll<Result<&u32, Tracked>>;
+    fn own_poll_multi(&self, x: u8) -> std::task::Poll<Result<&u32, TrackedC>>;
 }
 
 // ---------------------------------------------------------------------------------------------
@@ -518,6 +519,8 @@ pub fn type_ids() -> &'static Vec<(TypeId, M)> {
             (TypeId::of::<ByRcUMock::rcu>(), M::RcU),
             #[cfg(feature = "stdworld")]
             (TypeId::of::<FmtTMock::show>(), M::Show),
+            #[cfg(feature = "stdworld")]
+            (TypeId::of::<unimock::mock::std::process::TerminationMock::report>(), M::TermReport),
             (TypeId::of::<LendMock::lend_a>(), M::LendA),
             (TypeId::of::<LendMock::lend_b>(), M::LendB),
             (TypeId::of::<LendMock::lend_mut>(), M::LendMut),
@@ -536,6 +539,7 @@ pub fn type_ids() -> &'static Vec<(TypeId, M)> {
             (TypeId::of::<OwnMock::own_tup3>(), M::OwnTup3),
             (TypeId::of::<OwnMock::own_deep_opt>(), M::OwnDeepOpt),
             (TypeId::of::<OwnMock::own_deep_poll>(), M::OwnDeepPoll),
+            (TypeId::of::<OwnMock::own_poll_multi>(), M::OwnPollMulti),
             (TypeId::of::<AsyncAMock::af>(), M::Af),
             (TypeId::of::<AsyncAMock::ag>(), M::Ag),
             (TypeId::of::<AsyncTMock::at>(), M::At),
